@@ -1278,6 +1278,10 @@ pub fn parse_chunk_size(buf: &[u8])
     let mut count = 0;
     loop {
         let b = next!(bytes);
+        // chunk-size = 1*HEXDIG: the line must start with at least one hex digit
+        if count == 0 && !b.is_ascii_hexdigit() {
+            return Err(InvalidChunkSize);
+        }
         match b {
             b'0' ..= b'9' if in_chunk_size => {
                 if count > 15 {
